@@ -436,20 +436,33 @@ def settle(ex: Explore, candidates: dict, pl, max_shrinks: int):
         else:
             todo.append((pk, task))
     todo.sort(key=lambda x: H.size(x[1][0]))                 # small hints first: they settle in a few child runs
-    for (pk, task), sh in zip(todo[:max_shrinks], pl.map(_shrink_job, [t for _, t in todo[:max_shrinks]], chunksize=1) if todo else []):
+    fresh = {f.key for f in ex.failures if f.key not in known}
+
+    def shrunk():
+        # in chunks, so that a flood (a mutant breaking everything) stops once enough distinct new keys are in hand
+        step = 4 * WORKERS
+        for i in range(0, min(len(todo), max_shrinks), step):
+            if len(fresh) >= MAX_NEW_KEYS:
+                ex.extra['failing_hints_not_settled_after_flood'] = len(todo) - i
+                return
+            chunk = todo[i:i + step]
+            yield from zip(chunk, pl.map(_shrink_job, [t for _, t in chunk], chunksize=1))
+    for (pk, task), sh in shrunk():
         entry, label, k0 = pk
         if not sh['reproduced']:
             ex.extra.setdefault('unreproduced_in_isolation', []).append([entry, label, k0])
             continue
         node = sh['node']
         key = f'C11:{entry}:{label}:{kind(node)}' + (' after ' + ' ; '.join(kind(p) for p in sh['prefix']) if sh['prefix'] else '')
+        if key not in known:
+            fresh.add(key)
         ex.failures.append(Failure(
             key=key,
             what=f'{entry} with hint {H.render(node)}' + (f' (after {[H.render(p) for p in sh["prefix"]]} in the same process)' if sh['prefix'] else '') +
                  f': {sh["why"]}',
             replay={'mode': 'hint', 'node': node, 'prefix': sh['prefix'], 'entry': entry, 'label': label, 'objs': task[5],
                     'hint_readable': H.render(node), 'observed': sh['rec'], 'unshrunk': H.render(task[0])}))
-    for pk, task in todo[max_shrinks:]:
+    for pk, task in (todo[max_shrinks:] if len(fresh) < MAX_NEW_KEYS else []):
         ex.failures.append(Failure(key=f'C11:{pk[0]}:{pk[1]}:{pk[2]}', what=f'{pk[0]} with hint {H.render(task[0])} (not shrunk): {pk[1]}',
                                    replay={'mode': 'hint', 'node': task[0], 'prefix': task[3], 'entry': pk[0], 'label': pk[1],
                                            'objs': task[5], 'hint_readable': H.render(task[0])}))
